@@ -31,7 +31,15 @@ class Run:
         self.seed = seed
         self.sink = Sink()
         self.functions = []      # functions under contract
-        self.assumptions = []
+        self.assumptions = [
+            "A-REAL: C doubles and Python floats are mathematical reals (rounding ignored; C10 finiteness uses the IEEE special-value model)",
+            "A-INT: int / int64_t are mathematical integers (overflow outside the model)",
+            "A-LIBM: libm functions are uninterpreted; only the axioms named in DESIGN.md section 4 (instances added per query)",
+            "A-IND: the induction principle behind spec.induction / monotone_lemma (base and step are obligations)",
+            "A-EXT: numpy/LAPACK, scipy, spglib, PyYAML, h5py enter by the contracts stated at the hooks; not verified",
+            "A-GLUE: c/_phonopy.cpp (nanobind) is read, not verified; the extension cannot be built here (replays use stand-ins)",
+            "A-ENGINE: clang AST dump, Python ast, the pvc VC generator, z3 5.1 / cvc5 1.0 / sympy are trusted",
+            "A-ABS: statements listed under abstracted_statements are abstracted (targets unknown)"]
         self.trusted = []
         self.axioms = []
         self.assumed_contracts = []
@@ -85,7 +93,31 @@ class Run:
                 raise CheckerError("function %s not found in %s" % (c.func, c.file))
             n0 = len(self.sink.obls)
             self.__dict__.setdefault("verified_contracts", []).append((cfs, c))
-            ex.verify(c)
+            try:
+                ex.verify(c)
+            except CheckerError as e:
+                # The contract can no longer be applied to the function's current text (restructured loops, new
+                # callees ...).  That alone is a maintenance error (exit 3), not a verdict -- unless running the REAL
+                # function against the contract's ensures clauses (and the sanitizer build) produces a failing input.
+                if c.gen is None:
+                    raise
+                from . import cfuzz
+                r = cfuzz.fuzz(cfs, c, trials=300 if self.tier == "quick" else 3000, seed=self.seed, lib=c.lib)
+                if not r.get("reproduced"):
+                    a = cfuzz.asan_fuzz(cfs, c, trials=100, seed=self.seed)
+                    if a.get("reproduced"):
+                        r = a
+                if not r.get("reproduced"):
+                    raise
+                del self.sink.obls[n0:]
+                ob = self.sink.add("%s:%s%s" % (c.file, c.func, c.tag or ""), "contract", [], z3.BoolVal(False), meta={
+                    "label": "the contract cannot be applied to the current text (%s) and the real function violates its ensures clauses %s" % (
+                        str(e)[:160], r.get("violated_clauses") or "(sanitizer report)")})
+                ob.status, ob.solver, ob.detail = "refuted", "real-code execution", str(e)[:300]
+                ob.replay = (lambda r=r: (lambda model: r))()
+                self.functions.append({"file": c.file, "function": c.func + (c.tag or ""), "line": cf.fn_line(c.func),
+                                       "sha1": cf.fn_sha(c.func), "obligations": 1})
+                continue
             if c.abstract_mul:
                 for ob in self.sink.obls[n0:]:
                     if ob.status is None and ob.backend == "smt" and ob.expect == "valid":
@@ -218,6 +250,9 @@ class Run:
         # lock drift: every locked semantic obligation must still be generated
         names = {o.name for o in obls}
         missing = [n for n, m in self.lock.items() if n not in names and m.get("kind") in ("post", "preserve", "establish", "equiv", "lemma", "sum", "deriv", "cont", "thermo", "doc", "finite", "vertex", "race")]
+        # obligations of a function whose contract could not be applied but whose real code was shown to violate it
+        gone = [o.name.rsplit(":", 2)[0] for o in obls if o.kind == "contract"]
+        missing = [n for n in missing if not any(n.startswith(g + ":") for g in gone)]
         if missing:
             raise CheckerError("obligations in the lock file are no longer generated (renamed or deleted code?): %s" % missing[:5])
         rep_dir = os.path.join(OUT, "replays", self.pid)
